@@ -4,6 +4,8 @@
   Imports model and spec files only (no Mathlib, no proofs), so it links as a `lean_exe`.
 -/
 import SIM.Driver.Basic
+import SIM.Driver.Codec
+import SIM.Driver.Registry
 open SIM SIM.Driver
 
 def dispatch (stream : String) (toks : List String) : Verdict :=
@@ -11,6 +13,8 @@ def dispatch (stream : String) (toks : List String) : Verdict :=
   | "interner" => runP interner toks
   | "builder" => runP builder toks
   | "path" => runP path toks
+  | "codec" => runP codec toks
+  | "registry" => runP registry toks
   | _ => .unmodelled ("unknown stream " ++ stream)
 
 partial def loop (h : IO.FS.Stream) (out : IO.FS.Stream) : IO Unit := do
